@@ -84,7 +84,7 @@ func stemOf(n int, seed byte) []byte {
 // drawStems draws a family of stems that diverge at interesting offsets.
 func drawStems(t *rapid.T) [][]byte {
 	n := drawInt(t, 1, 3, "nstems")
-	base := stemOf(pick(t, []int{0, 3, 9, 10, 11, 12, 20, 33, 300}, "stemlen"), byte(drawInt(t, 0, 5, "stemseed")))
+	base := stemOf(pick(t, []int{0, 0, 3, 9, 10, 11, 12, 20, 33, 15, 16, 31, 32, 63, 64, 127, 128, 300}, "stemlen"), byte(drawInt(t, 0, 5, "stemseed")))
 	stems := [][]byte{base}
 	for len(stems) < n {
 		v := clone(base)
@@ -151,7 +151,7 @@ func bytesUniverse(t *rapid.T, k Kind, profile string) *universe {
 			return key
 		}
 	case "fan":
-		stem := stemOf(pick(t, []int{0, 1, 12}, "fanstem"), 3)
+		stem := stemOf(pick(t, []int{0, 0, 1, 1, 2, 3, 5, 9, 10, 11, 12, 12, 20}, "fanstem"), 3)
 		width := pick(t, []int{6, 20, 60, 256}, "fanw")
 		start := pick(t, []int{0x01, 0x70, 0xC0, 0x00}, "fanstart")
 		if width == 256 {
